@@ -490,6 +490,39 @@ fn run_container(cx: &mut Ctx, enc: &Encoded, label: &str) -> Option<Vec<u8>> {
     for m in &enc.modes {
         cx.rep.count(&format!("chunk-mode:{m:?}"));
     }
+    // what the copy tokens of this container exercise
+    let (mut bcs, mut overlap, mut maxlen, mut maxoff) = ([false; 16], false, false, false);
+    for c in &enc.chunks {
+        if let Chunk::Comp(toks) = c {
+            let mut d = 0;
+            for t in toks {
+                match t {
+                    Tok::Lit(_) => d += 1,
+                    Tok::Copy(o, l) => {
+                        bcs[bit_count(d)] = true;
+                        overlap |= l > o;
+                        maxlen |= *l == max_len(d);
+                        maxoff |= *o == d;
+                        d += l;
+                    }
+                }
+            }
+        }
+    }
+    for (b, hit) in bcs.iter().enumerate() {
+        if *hit {
+            cx.rep.count(&format!("containers-with-copy-at-bitcount:{b:02}"));
+        }
+    }
+    if overlap {
+        cx.rep.count("containers-with-overlapping-copy");
+    }
+    if maxlen {
+        cx.rep.count("containers-with-copy-of-maximal-length");
+    }
+    if maxoff {
+        cx.rep.count("containers-with-copy-from-chunk-start");
+    }
     if enc.standard && !valid || !decodable {
         // the generator promised a valid container: harness/tokeniser bug or spec disagreement
         cx.rep.fail("model_vs_spec", "generator-not-valid", &desc, "", flags, "valid");
